@@ -450,7 +450,7 @@ func init() {
 		Assume:      []string{"functions are compared on a probe set of 6 argument lists, not on every argument"},
 		QuickCap:    100 * time.Second,
 		ThoroughCap: 20 * time.Minute,
-		HangLimit:   60 * time.Second,
+		HangLimit:   240 * time.Second,
 		Run:         runC14,
 		Replay: func(c *core.Ctx, cs core.Case) *core.Viol {
 			if dir, err := os.MkdirTemp("", "c14-cwd-"); err == nil {
